@@ -21,6 +21,8 @@ let action_of_sx = function
   | L [A "write"; A "single"; _; L ops] -> M.ASingle (List.map (function L [n; op] -> (zarg n, op_of op) | _ -> failwith "bad op") ops)
   | L [A "write"; A "bulk"; now; L ops] -> M.ABulk (zarg now, List.map (function L [_; op] -> op_of op | _ -> failwith "bad op") ops)
   | L [A "write"; A "atomic"; now; L ops] -> M.AAtomic (zarg now, List.map (function L [_; op] -> op_of op | _ -> failwith "bad op") ops)
+  (* a tree whose facade does not override BeginTX (before fixes/01-facade-begintx): the harness names the path so *)
+  | L [A "write"; A "atomic_unrepaired"; now; L ops] -> M.AAtomicUnrepaired (zarg now, List.map (function L [_; op] -> op_of op | _ -> failwith "bad op") ops)
   | _ -> failwith "bad action"
 
 (* observable classes, in the order of harness/go/vh/importx.go:impClasses *)
@@ -74,7 +76,7 @@ let result_sx_of a (act : M.action) = function
     let ops = (match act with M.ABulk (_, ops) -> ops | _ -> []) in
     L [A "write"; L (List.map entry_sx (M.respond M.bres_ok (List.map action_of ops) (M.tag_seq rs)))]
   | M.RAtomic (M.AResults rs) ->
-    let ops = (match act with M.AAtomic (_, ops) -> ops | _ -> []) in
+    let ops = (match act with M.AAtomic (_, ops) | M.AAtomicUnrepaired (_, ops) -> ops | _ -> []) in
     L [A "write"; L (ares_sx (List.map action_of ops) rs)]
   | M.RAtomic M.ACommitFailed -> L [A "write"; L [L [A "bulk_error"]]]
 
